@@ -909,10 +909,30 @@ pub fn main_replay(args: &[String]) -> i32 {
     let mut ftrace: Vec<Value> = vec![];
     let mut ftrace_budget = max_ftrace_cells;
     let mut untraced_failures = 0usize;
+    // The trace budget is spread over ALL inputs (every stride-th input is recorded, both first embeddings), so that the
+    // recorded histories are not only those of the first - smallest - inputs: larger cells and cells that stop on the
+    // safety radius (Terminate events) are validated by VCellTrace as well.
+    // Half of the budget goes to the seeded larger inputs (id > 0), half to the exhaustive families (id = 0).
+    let is_sim = |k: &String| groups[k].0.id > 0;
+    let cells_sim: usize = order.iter().filter(|k| is_sim(k)).map(|k| groups[k].1.len() * 2).sum();
+    let cells_fam: usize = order.iter().filter(|k| !is_sim(k)).map(|k| groups[k].1.len() * 2).sum();
+    let half = std::cmp::max(1, max_trace_cells / 2);
+    let budget_fam = if cells_sim == 0 { max_trace_cells.max(1) } else { half };
+    let stride_fam = std::cmp::max(1, (cells_fam + budget_fam - 1) / budget_fam);
+    let stride_sim = std::cmp::max(1, (cells_sim + half - 1) / half);
+    let mut n_fam = 0usize;
+    let mut n_sim = 0usize;
     for (gi, key) in order.iter().enumerate() {
         let (inp, cells) = &groups[key];
         stats.inputs += 1;
         let embs = Embeddings::list(&tier, inp, seed, gi);
+        let picked = if inp.id > 0 {
+            n_sim += 1;
+            (n_sim - 1) % stride_sim == (seed as usize) % stride_sim
+        } else {
+            n_fam += 1;
+            (n_fam - 1) % stride_fam == (seed as usize) % stride_fam
+        };
         let mut tokens: Vec<(String, String)> = vec![];
         for (ei, emb) in embs.iter().enumerate() {
             if let Some(o) = only_emb {
@@ -920,7 +940,7 @@ pub fn main_replay(args: &[String]) -> i32 {
                     continue;
                 }
             }
-            let want_trace = trace_path.is_some() && trace_budget > 0 && ei <= 1;
+            let want_trace = trace_path.is_some() && trace_budget > 0 && ei <= 1 && picked;
             let obs = run_library(inp, emb, want_trace);
             stats.runs += 1;
             stats.exact_calls += obs.exact_calls;
